@@ -91,7 +91,7 @@ def run(tier):
     run.functions = progfam.functions_pre()
     common.import_pregex()
     import pregex.core.pre as pre
-    run.functions += common.src_fingerprint([pre.Pregex._Pregex__is_fixed_width]) if hasattr(pre.Pregex, "_Pregex__is_fixed_width") else []
+    run.functions += common.src_fingerprint(common.resolve([(pre.Pregex, "_Pregex__is_fixed_width")])) if hasattr(pre.Pregex, "_Pregex__is_fixed_width") else []
     ps = family(tier)
     so = progs.with_seed_outcomes(ps, list(range(6)) if tier == "quick" else list(range(16)))
     run.add(common.run_tasks(__name__, [("task_prog", (e, 4, so.get(i))) for i, e in enumerate(ps)], progress=2000))
